@@ -383,7 +383,7 @@ def symmetric_moving_average(a, wing_width):
         # Index of the sample that just disappeared
         # from the window
         just_out = i - wing_width - 1
-        if just_out > 0:
+        if just_out >= 0:
             count -= 1
             asum -= a[just_out]
 
